@@ -160,6 +160,74 @@ pub fn gen_stun(rng: &mut Rng) -> Vec<u8> {
     }
     v
 }
+/// a TURN server's response as the client code expects it — and as it does not: Allocate / CreatePermission success and
+/// error responses with ERROR-CODE 401/438/other, REALM / NONCE present, absent, empty or not UTF-8, XOR-RELAYED-ADDRESS of
+/// both families or cut short, LIFETIME 0 / huge / 3 bytes, trailing unknown attributes, truncation. The transaction id
+/// (bytes 8..20) is overwritten with the request's by the fake server unless byte 8 is 0xEE.
+fn gen_turn_resp(rng: &mut Rng, method: u16) -> Vec<u8> {
+    if rng.chance(1, 12) { let mut g = gen_stun(rng); if g.len() > 8 && rng.chance(1, 2) { g[8] = 0xEE; } return g; }
+    let tid = rng.bytes(12);
+    let m = if rng.chance(1, 10) { *rng.pick(&[0x001u16, 0x003, 0x004, 0x008, 0x009]) } else { method };
+    let class_bits: u16 = match rng.below(10) { 0..=3 => 0x0100, 4..=8 => 0x0110, _ => *rng.pick(&[0x0000u16, 0x0010]) };
+    let mut v = vec![]; v.extend_from_slice(&(m | class_bits).to_be_bytes()); v.extend_from_slice(&[0, 0, 0x21, 0x12, 0xA4, 0x42]); v.extend_from_slice(&tid);
+    if rng.chance(1, 12) { v[8] = 0xEE; }
+    for _ in 0..rng.range(0, 5) {
+        match rng.below(9) {
+            0 | 1 => { let (c, n) = *rng.pick(&[(4u8, 1u8), (4, 1), (4, 38), (4, 0), (4, 37), (3, 0), (6, 99), (7, 255), (0, 0)]); let mut e = vec![0, 0, c, n]; e.extend(gen_str(rng, 12).bytes()); tlv(&mut v, 0x0009, &e) }
+            2 => { let n = rng.below(4) as usize; tlv(&mut v, 0x0009, &rng.bytes(n)) }
+            3 => match rng.below(4) { 0 => tlv(&mut v, 0x0014, &[]), 1 => tlv(&mut v, 0x0014, &[0xff, 0xfe, 0x41]), _ => tlv(&mut v, 0x0014, gen_str(rng, 130).as_bytes()) },
+            4 => match rng.below(4) { 0 => tlv(&mut v, 0x0015, &[]), 1 => tlv(&mut v, 0x0015, &[0xc3]), _ => tlv(&mut v, 0x0015, gen_str(rng, 130).as_bytes()) },
+            5 => { let a = gen_addr(rng); let mut x = xor_addr_value(a, &tid); if rng.chance(1, 4) { let n = x.len(); x.truncate(rng.below(n as u64 + 1) as usize); } if rng.chance(1, 8) && x.len() > 1 { x[1] = rng.next() as u8; } tlv(&mut v, 0x0016, &x) }
+            6 => match rng.below(3) { 0 => tlv(&mut v, 0x000D, &[0, 0, 0, 0]), 1 => tlv(&mut v, 0x000D, &[0xff; 4]), _ => { let n = rng.below(6) as usize; tlv(&mut v, 0x000D, &rng.bytes(n)) } },
+            7 => tlv(&mut v, 0x0008, &rng.bytes(20)),
+            _ => { let t = rng.next() as u16; let n = rng.below(9) as usize; tlv(&mut v, t, &rng.bytes(n)) }
+        }
+    }
+    let l = (v.len() - 20) as u16; v[2..4].copy_from_slice(&l.to_be_bytes());
+    if rng.chance(1, 10) { let n = v.len(); v.truncate(rng.below(n as u64 + 1) as usize); }
+    if rng.chance(1, 20) && v.len() >= 4 { v[2..4].copy_from_slice(&(rng.next() as u16).to_be_bytes()); }
+    v
+}
+
+/// oracle-only stream `turnclient`: the TURN client's request/response exchanges (`allocate`, then `create_permission`)
+/// against a fake server on a loopback UDP socket that answers each request with the next scripted response.
+/// `auth`: the client already holds long-term credentials (as after an earlier allocation).
+pub fn run_turnclient(run: &mut Run, live: &Live, op: u8, auth: bool, script: &[Vec<u8>], nt: bool) {
+    let l = std::panic::AssertUnwindSafe(live);
+    let sc: Vec<Vec<u8>> = script.to_vec();
+    let total: u64 = script.iter().map(|x| x.len() as u64).sum();
+    let input = format!("{op} {} {}", auth as u8, script.iter().map(|x| if x.is_empty() { "-".to_string() } else { hex(x) }).collect::<Vec<_>>().join(" "));
+    exec(run, "turnclient", &input, "TurnClient::allocate/create_permission", nt, Some((64, 16384, total)), move || {
+        l.rt.block_on(async {
+            let client_sock = Arc::new(tokio::net::UdpSocket::bind("127.0.0.1:0").await.expect("bind"));
+            let server = tokio::net::UdpSocket::bind("127.0.0.1:0").await.expect("bind");
+            let server_addr = server.local_addr().unwrap();
+            let turn = TurnClient::verif_new_udp(client_sock, server_addr);
+            if auth { turn.verif_set_auth("user", "pass", "realm", "nonce"); }
+            let srv = tokio::spawn(async move {
+                let mut buf = [0u8; 2048];
+                let mut it = sc.into_iter();
+                // script exhausted: a plain 400 error ends the exchange (the client's own receive timeout is seconds long)
+                loop {
+                    let Ok((n, from)) = server.recv_from(&mut buf).await else { break };
+                    let mut resp = it.next().unwrap_or_else(|| { let t = u16::from_be_bytes([buf[0], buf[1]]) | 0x0110; let mut v = t.to_be_bytes().to_vec(); v.extend_from_slice(&[0, 8, 0x21, 0x12, 0xA4, 0x42]); v.extend_from_slice(&[0; 12]); v.extend_from_slice(&[0, 9, 0, 4, 0, 0, 4, 0]); v });
+                    if n >= 20 && resp.len() >= 20 && resp[8] != 0xEE { resp[8..20].copy_from_slice(&buf[8..20]); }
+                    let _ = server.send_to(&resp, from).await;
+                }
+            });
+            let fut = async {
+                if op == 0 { let _ = turn.verif_allocate("user", "pass").await; if turn.verif_auth_key().is_some() { let _ = turn.verif_create_permission("127.0.0.1:9".parse().unwrap()).await; } }
+                else { let _ = turn.verif_create_permission("127.0.0.1:9".parse().unwrap()).await; }
+            };
+            let timed_out = tokio::time::timeout(std::time::Duration::from_secs(15), fut).await.is_err();
+            srv.abort();
+            let _ = srv.await;
+            if timed_out { panic!("TURN exchange did not end within 15 s"); }
+        });
+        "noncompared".into()
+    });
+}
+
 fn gen_binding_req(rng: &mut Rng) -> Vec<u8> {
     if rng.chance(1, 4) { return gen_stun(rng); }
     let mut tid = [0u8; 12]; tid.copy_from_slice(&rng.bytes(12));
@@ -330,6 +398,34 @@ fn gen_inner(rng: &mut Rng) -> Vec<u8> {
 
 pub fn special(run: &mut Run, rng: &mut Rng, thorough: bool) {
     {
+        let live = Live::new();
+        // the canonical exchange: 401 with REALM + NONCE, then success with a relayed address; then the same without REALM / NONCE
+        let tid = [0u8; 12];
+        let mk = |class: u16, method: u16, attrs: &[(u16, Vec<u8>)]| { let mut v = (method | class).to_be_bytes().to_vec(); v.extend_from_slice(&[0, 0, 0x21, 0x12, 0xA4, 0x42]); v.extend_from_slice(&tid);
+            for (t, a) in attrs { tlv(&mut v, *t, a); } let l = (v.len() - 20) as u16; v[2..4].copy_from_slice(&l.to_be_bytes()); v };
+        let relayed = xor_addr_value("10.0.0.1:5000".parse().unwrap(), &tid);
+        for code in [(4u8, 1u8), (4, 38)] { for (realm, nonce) in [(true, true), (false, true), (true, false), (false, false)] {
+            let mut at = vec![(0x0009u16, vec![0, 0, code.0, code.1, b'x'])];
+            if realm { at.push((0x0014, b"realm".to_vec())); } if nonce { at.push((0x0015, b"nonce".to_vec())); }
+            let e401 = mk(0x0110, 0x003, &at);
+            let ok = mk(0x0100, 0x003, &[(0x0016, relayed.clone()), (0x000D, vec![0, 0, 2, 88])]);
+            let mut atp = at.clone(); atp[0].1[3] = code.1;
+            let p401 = mk(0x0110, 0x008, &atp);
+            let pok = mk(0x0100, 0x008, &[]);
+            run_turnclient(run, &live, 0, false, &[e401.clone(), ok.clone(), p401.clone(), pok.clone()], true);
+            run_turnclient(run, &live, 1, true, &[p401.clone(), pok.clone()], true);
+            run_turnclient(run, &live, 1, true, &[p401.clone(), p401.clone(), p401], true);
+            run_turnclient(run, &live, 0, false, &[e401.clone(), e401.clone(), e401], true);
+        } }
+        run_turnclient(run, &live, 0, false, &[vec![], vec![1], vec![0; 20]], true);
+        for _ in 0..(if thorough { 20_000 } else { 700 }) {
+            let op = rng.below(3) as u8 % 2;
+            let auth = op == 1 || rng.chance(1, 3);
+            let sc: Vec<Vec<u8>> = (0..rng.range(1, 6)).map(|i| gen_turn_resp(rng, if op == 1 || i >= 2 { 0x008 } else { 0x003 })).collect();
+            run_turnclient(run, &live, op, auth, &sc, true);
+        }
+    }
+    {
         // framed truncations: attributes cut at every length with the STUN length field adjusted
         let ts = targets();
         for _ in 0..(if thorough { 3_000 } else { 150 }) {
@@ -455,6 +551,7 @@ pub fn replay_special(run: &mut Run, stream: &str, a: &[&str]) -> bool {
         ("tcp4571", 2) => { let l = Live::new(); run_tcp4571(run, &l, p(a[0]) as usize, &unhex(a[1]), true) }
         ("turntcp", 2) => { let l = Live::new(); run_turntcp(run, &l, p(a[0]) as usize, &unhex(a[1]), true) }
         ("rtx", 1) => run_rtx(run, &unhex(a[0]), true),
+        ("turnclient", n) if n >= 2 => { let l = Live::new(); let sc: Vec<Vec<u8>> = a[2..].iter().map(|x| if *x == "-" { vec![] } else { unhex(x) }).collect(); run_turnclient(run, &l, p(a[0]) as u8, a[1] == "1", &sc, true) }
         _ => return false,
     }
     true
